@@ -9,7 +9,8 @@
 (*        of <<id, age>>, so that alignment is observable)                 *)
 (*   et   event time "0" (not positive), "2", "4" (numbers on the scale of *)
 (*        the ages), "nan" (missing)                                       *)
-(*   eb   0 censored / 1 observed                                          *)
+(*   eb   0 censored / 1 observed (event of the first kind) / 2 observed   *)
+(*        event of a second kind (competing risks)                         *)
 (*   cov  "0", "1" (integers), "half" (not an integer), "nan" (missing)    *)
 (* In the event layout the age is not a column; in the joint layout cov    *)
 (* is not; in the covariate layout et / eb are not.                        *)
@@ -50,7 +51,7 @@ InconsEvent(t) == \E i, j \in Idx(t) : t[i].id = t[j].id /\ (t[i].et # t[j].et \
 NoEvent(t) == RequireAnEvent /\ \A i \in Idx(t) : t[i].eb = 0
 MaxAge(t, id) == CHOOSE m \in {t[i].age : i \in {j \in Idx(t) : t[j].id = id}} : \A i \in Idx(t) : t[i].id = id => t[i].age <= m
 \* an OBSERVED event may not precede the individual's last visit (a censored one may: prediction set-up, warning only)
-ObservedBeforeLastVisit(t) == \E i \in Idx(t) : t[i].eb = 1 /\ ETNum(t[i].et) < MaxAge(t, t[i].id)
+ObservedBeforeLastVisit(t) == \E i \in Idx(t) : t[i].eb # 0 /\ ETNum(t[i].et) < MaxAge(t, t[i].id)
 BadCov(t) == \E i \in Idx(t) : t[i].cov \in {"nan", "half"}
 InconsCov(t) == \E i, j \in Idx(t) : t[i].id = t[j].id /\ t[i].cov # t[j].cov
 OneCovValue(t) == RequireTwoCovValues /\ Cardinality({t[i].cov : i \in Idx(t)}) < 2
@@ -104,7 +105,7 @@ OnePerIndividual == Res.status = "ok" =>
 \* C14: an accepted joint table never holds a visit after an observed event; accepted events are positive numbers
 AcceptedIsConsistent == Res.status = "ok" =>
     /\ (Layout # "covariate" => \A k \in 1..Len(Res.order) : Res.event[k][1] \in {"2", "4"})
-    /\ (Layout = "joint" => \A k \in 1..Len(Res.order) : Res.event[k][2] = 1 =>
+    /\ (Layout = "joint" => \A k \in 1..Len(Res.order) : Res.event[k][2] # 0 =>
             \A v \in 1..Len(Res.visits[k]) : Res.visits[k][v][1] <= ETNum(Res.event[k][1]))
     /\ (Layout = "covariate" => \A k \in 1..Len(Res.order) : Res.cov[k] \in {"0", "1"})
 =============================================================================
